@@ -5,6 +5,9 @@
 #include <hgraph/types/time_series/ts_output.h>
 #include <hgraph/types/value/value_builder.h>
 #include <hgraph/util/scope.h>
+#if defined(HGRAPH_VERIF_HOOKS)
+#include <hgraph/util/verif_hooks.h>
+#endif
 
 #include <array>
 #include <condition_variable>
@@ -396,6 +399,9 @@ namespace hgraph
 
                 const PushSourceSendResult result =
                     policy_.ops_->try_send_impl(policy_.context_, storage_, std::move(value));
+#if defined(HGRAPH_VERIF_HOOKS)
+                if (result.accepted) { HGRAPH_VERIF_POINT("push.admitted"); }
+#endif
                 if (result.accepted && result.wake_required)
                 {
                     push_engine_.mark_push_update_pending();
@@ -421,6 +427,9 @@ namespace hgraph
                 {
                     return false;
                 }
+#if defined(HGRAPH_VERIF_HOOKS)
+                HGRAPH_VERIF_POINT("push.admitted");
+#endif
                 if (result.wake_required)
                 {
                     push_engine_.mark_push_update_pending();
@@ -913,6 +922,9 @@ namespace hgraph
             void *storage = policy_storage(context, view.data());
             const bool more_pending = detail::PushSourcePolicyAccess::emit_next(
                 context.policy, storage, view.output(evaluation_time));
+#if defined(HGRAPH_VERIF_HOOKS)
+            HGRAPH_VERIF_POINT("push.popped");
+#endif
             if (more_pending)
             {
                 view.graph().root().executor().push_queue_engine().mark_push_update_pending();
